@@ -353,7 +353,7 @@ def random_rotation(rng):
                      [2 * (b * d - a * c), 2 * (c * d + a * b), a * a - b * b - c * c + d * d]])
 
 
-def distort(m, rng, jitter=0.1, affine=True, min_angle=15.0, tries=30):
+def distort(m, rng, jitter=0.1, affine=True, min_angle=15.0, tries=30, strength=0.35):
     """Seeded bounded-aspect-ratio distortion: random affine map + vertex jitter, min angle >= bound."""
     base_angle = m.min_angle_deg()
     bound = min(min_angle, 0.6 * base_angle)
@@ -361,7 +361,7 @@ def distort(m, rng, jitter=0.1, affine=True, min_angle=15.0, tries=30):
     for t in range(tries):
         out = m.copy(m.name + "~")
         if affine:
-            A = np.eye(3) + (0.35 / (1 + t / 6.0)) * rng.uniform(-1, 1, size=(3, 3))
+            A = np.eye(3) + (strength / (1 + t / 6.0)) * rng.uniform(-1, 1, size=(3, 3))
             if np.linalg.det(A) < 0.3:
                 continue
             out.V = A @ out.V
